@@ -18,15 +18,18 @@
 EXTENDS Integers, Sequences, FiniteSets, TLC
 
 CONSTANTS RootKeys, SDs, L0s, Positions, Ops,
-          NowL0, NowPos,       \* the clock (client and DC agree), fixed during a behaviour
+          Clock,               \* the instants the clock passes through: sequence of [l0, pos] (client and DC agree);
+                               \* Tick moves to the next one, also across an L0 boundary
           DefaultRk,           \* root key the DC uses when the caller names none
           ReplyKinds,          \* subset of {"rpc", "pub"}: seed-key reply / public-key-only reply
           LaterReplies,        \* TRUE: the DC may answer with a later position than requested
           SyncFlavours         \* subset of BOOLEAN: which API flavours are explored
 
-VARIABLES loaded, cache, ops, obtained, busy, rpcLog, hist
-vars == <<loaded, cache, ops, obtained, busy, rpcLog, hist>>
-view == <<loaded, cache, ops, obtained, busy>>
+VARIABLES loaded, cache, ops, obtained, busy, tick, rpcLog, hist
+vars == <<loaded, cache, ops, obtained, busy, tick, rpcLog, hist>>
+view == <<loaded, cache, ops, obtained, busy, tick>>
+NowL0 == Clock[tick].l0
+NowPos == Clock[tick].pos
 
 NoRk == "norootkey"
 NoPos == <<-1, -1>>
@@ -39,7 +42,7 @@ TopPos == <<31, 31>>
 NoEntry == [pos |-> NoPos, src |-> "none", id |-> <<>>]
 RootEntry(t) == [pos |-> TopPos, src |-> "root", id |-> t]
 IdleOp == [st |-> "idle", kind |-> "-", rk |-> NoRk, sd |-> "-", l0 |-> -1, pos |-> NoPos, sync |-> TRUE,
-           env |-> NoEntry, res |-> <<"none">>, rpc |-> FALSE]
+           env |-> NoEntry, res |-> <<"none">>, rpc |-> FALSE, at |-> <<-1, NoPos>>]
 
 (* positions a blob can name at L0 = l0 (nothing from the future)            *)
 Nameable(l0, p) == l0 < NowL0 \/ (l0 = NowL0 /\ PosGeq(NowPos, p))
@@ -50,8 +53,17 @@ Init ==
   /\ ops = [o \in Ops |-> IdleOp]
   /\ obtained = [t \in Triples |-> NoPos]
   /\ busy = "none"
+  /\ tick = 1
   /\ rpcLog = <<>>
   /\ hist = <<>>
+
+(* time passes (never while a sync call is running: it blocks its thread)             *)
+Tick ==
+  /\ busy = "none"
+  /\ tick < Len(Clock)
+  /\ tick' = tick + 1
+  /\ hist' = Append(hist, <<"tick", Clock[tick + 1].l0, Clock[tick + 1].pos>>)
+  /\ UNCHANGED <<loaded, cache, ops, obtained, busy, rpcLog>>
 
 CanStep(o) == busy \in {"none", o}
 
@@ -60,7 +72,7 @@ LoadRoot(rk) ==
   /\ rk \notin loaded
   /\ loaded' = loaded \cup {rk}
   /\ hist' = Append(hist, <<"load", rk>>)
-  /\ UNCHANGED <<cache, ops, obtained, busy, rpcLog>>
+  /\ UNCHANGED <<cache, ops, obtained, busy, tick, rpcLog>>
 
 (* The cache operations as functions of explicit state, so that the trace       *)
 (* specification (TraceCache) folds the very same operators over recorded events. *)
@@ -85,7 +97,7 @@ BeginWith(o, kind, rk, sd, l0, pos, sync) ==
       t == IF kind = "unprotect" THEN <<rk, sd, l0>> ELSE <<rk, sd, NowL0>>
       p == IF kind = "unprotect" THEN pos ELSE NowPos
       lk == IF named THEN Lookup(t, p) ELSE <<FALSE, NoEntry, cache>>
-      base == [IdleOp EXCEPT !.kind = kind, !.rk = rk, !.sd = sd, !.l0 = l0, !.pos = pos, !.sync = sync]
+      base == [IdleOp EXCEPT !.kind = kind, !.rk = rk, !.sd = sd, !.l0 = l0, !.pos = pos, !.sync = sync, !.at = <<NowL0, NowPos>>]
   IN /\ cache' = lk[3]
      /\ IF lk[1]
           THEN /\ ops' = [ops EXCEPT ![o] = [base EXCEPT !.st = "replied", !.env = lk[2]]]
@@ -94,7 +106,7 @@ BeginWith(o, kind, rk, sd, l0, pos, sync) ==
                /\ rpcLog' = Append(rpcLog, IF kind = "unprotect" THEN <<o, rk, sd, l0, pos>> ELSE <<o, rk, sd, -1, NoPos>>)
      /\ busy' = IF sync THEN o ELSE "none"
      /\ hist' = Append(hist, <<"begin", o, kind, rk, sd, l0, pos, sync>>)
-     /\ UNCHANGED <<loaded, obtained>>
+     /\ UNCHANGED <<loaded, obtained, tick>>
 
 Begin(o) ==
   /\ busy = "none"
@@ -119,10 +131,10 @@ DcReply(o) ==
                    /\ ops' = [ops EXCEPT ![o].st = "replied",
                                          ![o].env = [pos |-> q, src |-> k, id |-> <<rk, op.sd, op.l0>>]]
                    /\ hist' = Append(hist, <<"reply", o, k, q>>)
-            ELSE /\ ops' = [ops EXCEPT ![o].st = "replied",
+            ELSE /\ ops' = [ops EXCEPT ![o].st = "replied", ![o].at = <<NowL0, NowPos>>,
                                        ![o].env = [pos |-> NowPos, src |-> k, id |-> <<rk, op.sd, NowL0>>]]
                  /\ hist' = Append(hist, <<"reply", o, k, NowPos>>)
-  /\ UNCHANGED <<loaded, cache, obtained, busy, rpcLog>>
+  /\ UNCHANGED <<loaded, cache, obtained, busy, tick, rpcLog>>
 
 Key(t, p) == <<"key", t, p>>
 
@@ -135,8 +147,8 @@ ResultOf(op) ==
                    ELSE <<"BAD">>
        ELSE \* protect: the blob names a position and is wrapped under the key of that position
             IF op.rpc THEN <<"blob", e.id, e.pos, Key(e.id, e.pos)>>
-            ELSE IF e.id = <<op.rk, op.sd, NowL0>> /\ PosGeq(e.pos, NowPos)
-                   THEN <<"blob", e.id, NowPos, Key(e.id, NowPos)>>
+            ELSE IF e.id = <<op.rk, op.sd, op.at[1]>> /\ PosGeq(e.pos, op.at[2])
+                   THEN <<"blob", e.id, op.at[2], Key(e.id, op.at[2])>>
                    ELSE <<"BAD">>
 
 Finish(o) ==
@@ -150,9 +162,10 @@ Finish(o) ==
         /\ ops' = [ops EXCEPT ![o].st = "done", ![o].res = ResultOf(op)]
         /\ hist' = Append(hist, <<"finish", o>>)
   /\ busy' = "none"
-  /\ UNCHANGED <<loaded, rpcLog>>
+  /\ UNCHANGED <<loaded, tick, rpcLog>>
 
-Next == \/ \E rk \in RootKeys : LoadRoot(rk)
+Next == \/ Tick
+        \/ \E rk \in RootKeys : LoadRoot(rk)
         \/ \E o \in Ops : Begin(o) \/ DcReply(o) \/ Finish(o)
 
 Spec == Init /\ [][Next]_vars /\ \A o \in Ops : WF_vars(DcReply(o)) /\ WF_vars(Finish(o))
@@ -179,7 +192,7 @@ Transparent ==
         /\ (op.kind = "unprotect" /\ r[1] = "plain") => r[2] = Key(<<op.rk, op.sd, op.l0>>, op.pos)
         /\ (r[1] = "unauthorized") => op.env.src = "pub"
         /\ (r[1] = "blob") => (r[4] = Key(r[2], r[3]) /\ r[2][2] = op.sd /\ (op.rk # NoRk => r[2][1] = op.rk)
-                               /\ r[2][3] = NowL0 /\ r[3] = NowPos)
+                               /\ r[2][3] = op.at[1] /\ r[3] = op.at[2])   \* the interval of the instant the key was chosen
 
 (* once material covering p has been obtained for a triple by a completed call,      *)
 (* later calls at or before p on that triple do not contact the DC                   *)
